@@ -56,7 +56,7 @@ deriving Repr, DecidableEq
 structure State where
   -- dependency manager
   static : List Name            -- clustersFromLastRouteConfig (staticRefCount = 1)
-  dyn : List (Name × Nat)       -- dynamicRefCount per cluster (entries with count 0 removed)
+  dyn : List Name               -- dynamic references: dynamicRefCount of c = number of occurrences of c
   -- resolver
   queue : List Upd
   active : List Info            -- activeClusters
@@ -86,14 +86,10 @@ def dedup : List Name → List Name
 
 /-! ### dependency manager -/
 
-def dynOf (s : State) (c : Name) : Nat := (s.dyn.lookup c).getD 0
-
-def setDyn (d : List (Name × Nat)) (c : Name) (n : Nat) : List (Name × Nat) :=
-  let d' := d.filter (·.1 ≠ c)
-  if n = 0 then d' else d' ++ [(c, n)]
+def dynOf (s : State) (c : Name) : Nat := s.dyn.count c
 
 /-- keys of clusterSubscriptions: a subscription exists iff it has a static or a dynamic reference -/
-def subs (s : State) : List Name := dedup (s.static ++ s.dyn.map (·.1))
+def subs (s : State) : List Name := dedup (s.static ++ s.dyn)
 
 /-- maybeSendUpdateLocked with every resource available: enqueue Update(config) at the resolver -/
 def sendUpdate (s : State) : State :=
@@ -106,7 +102,7 @@ def sendUpdate (s : State) : State :=
     Update, the first two without c among `config.Clusters`. -/
 def subscribe (s : State) (c : Name) : State :=
   let existed := (subs s).contains c
-  let s' : State := { s with dyn := setDyn s.dyn c (dynOf s c + 1) }
+  let s' : State := { s with dyn := s.dyn ++ [c] }
   if existed then s' else
   let partialU : Upd := { route := s'.static, clusters := (subs s').filter (· ≠ c) }
   sendUpdate { s' with queue := s'.queue ++ [partialU, partialU] }
@@ -114,7 +110,7 @@ def subscribe (s : State) (c : Name) : State :=
 /-- unsubscribeFromCluster(c) (first call of the OnceFunc) -/
 def unsubscribeDM (s : State) (c : Name) : State :=
   let n := dynOf s c - 1
-  let s' := { s with dyn := setDyn s.dyn c n }
+  let s' : State := { s with dyn := s.dyn.erase c }
   if n = 0 ∧ ¬ s.static.contains c then sendUpdate s' else s'
 
 /-! ### resolver -/
